@@ -403,7 +403,7 @@ theorem source_GetDependents_is_modelled :
   "return dependent"] := by
   rfl
 
-/-- `Services.GetProfiles` (after its `fix:` commit) — modelled by `getProfiles`: the profiles of the services collected in a set, listed, **sorted** -/
+/-- `Services.GetProfiles` — modelled by `getProfilesPre` (one possible order) / `getProfiles` (its sorted view): the profiles of the services collected in a set, listed by ranging over that set (not sorted: callers get an unordered list) -/
 theorem source_GetProfiles_is_modelled :
     CV.Gen.c15_GetProfiles = [
   "func () []string",
@@ -414,7 +414,6 @@ theorem source_GetProfiles_is_modelled :
   "var profiles []string",
   "for k := range set",
   "profiles = append(profiles, k)",
-  "sort.Strings(profiles)",
   "return profiles"] := by
   rfl
 
